@@ -581,12 +581,28 @@ func (b *BaseStore) Load(ctx context.Context, amount int) error {
 
 			// an entry written for another log must never be handed to Join, which
 			// would merge it as a head without verifying it (the replicator drops
-			// such entries the same way): only the entries of this log are joined
+			// such entries the same way): only the entries of this log are joined.
+			// Join also refuses the whole log when one of its entries is refused by
+			// the access controller or not signed by the identity it names: such an
+			// entry (reachable from an accepted one) is left out as well, so that
+			// the entries the replicator had merged come back after a restart
 			var own []ipfslog.Entry
 			for _, e := range l.GetEntries().Slice() {
-				if e.GetLogID() == oplog.GetID() {
-					own = append(own, e)
+				if e.GetLogID() != oplog.GetID() {
+					continue
 				}
+
+				if provider := b.Identity().Provider; provider != nil {
+					if err := b.AccessController().CanAppend(e, provider, &CanAppendContext{log: oplog}); err != nil {
+						continue
+					}
+
+					if err := e.Verify(provider, b.IO()); err != nil {
+						continue
+					}
+				}
+
+				own = append(own, e)
 			}
 
 			if len(own) != l.GetEntries().Len() {
